@@ -256,6 +256,13 @@ def judge(spec, rec):
             sf = dict(sf)
             sf['c0'] = RealInterval([50, 51])
             rec.cls('unsampled-key-in-sample_from')
+        if not variant and spec['seed'] % 3 != 1:
+            # the same sampler OBJECTS were used before, with the symbols declared in two other orders (reversed, rotated):
+            # what a sampler learnt then (e.g. which dependencies were still outstanding) must not carry over
+            for other in (list(reversed(symbols)), symbols[1:] + symbols[:1]):
+                with watchdog(10):
+                    call(gen_symbols_samples, other, 1, dict(reversed(list(sf.items()))), LIBF, {'%': 0.01}, constants)
+            rec.cls('sampler-objects-used-before-in-other-declaration-orders')
         set_seed(spec['seed'])
         with watchdog(10):
             kind, out = call(gen_symbols_samples, symbols, spec['samples'], sf, LIBF, {'%': 0.01}, constants)
@@ -308,6 +315,12 @@ def judge(spec, rec):
                     variables=[nd['name']], sample_from={nd['name']: sf[nd['name']]}, answers=nd['name'],
                     user_constants={u: 1.5 for u in used}, user_functions=X.USER_FUNCS)(None, nd['name']))
                 rec.cls('dependent-sampler-object-shared-with-another-grader')
+        if not variant and spec['seed'] % 3 != 1 and not spec['numbered']:
+            # ... and a grader that declares the same variables in the reverse order, sharing every sampler object
+            call(lambda: MatrixGrader(variables=list(reversed(variables)), sample_from=dict(reversed(list(sample_from.items()))),
+                                      answers='1', user_constants={'c0': 42.0}, user_functions=X.USER_FUNCS,
+                                      max_array_dim=2)(None, '1'))
+            rec.cls('sampler-objects-used-before-in-other-declaration-orders')
         cfg = dict(answers={'comparer_params': params, 'comparer': make_recorder(sink)}, variables=variables,
                    sample_from=sample_from, samples=spec['samples'], user_constants=uconst,
                    user_functions=X.USER_FUNCS, numbered_vars=['a'] if spec['numbered'] else [])
